@@ -190,14 +190,17 @@ type SeqRec struct {
 }
 
 type C01Plan struct {
-	Format   string         `json:"format"` // fasta | fastq
-	Width    int            `json:"width,omitempty"`
-	QID      bool           `json:"qid,omitempty"`
-	Enc      int            `json:"enc,omitempty"`
-	Qual     bool           `json:"qual"` // quality-carrying sequence type
-	Alpha    string         `json:"alpha"`
-	Recs     []SeqRec       `json:"recs"`
-	Delivery simio.Delivery `json:"delivery"`
+	Format string   `json:"format"` // fasta | fastq
+	Width  int      `json:"width,omitempty"`
+	QID    bool     `json:"qid,omitempty"`
+	Enc    int      `json:"enc,omitempty"`
+	Qual   bool     `json:"qual"` // quality-carrying sequence type
+	Alpha  string   `json:"alpha"`
+	Recs   []SeqRec `json:"recs"`
+	// SeqPrefix != "": FASTA writer and reader are both configured with this
+	// sequence-line prefix (a public field of both; GFF uses "##").
+	SeqPrefix string         `json:"seq_prefix,omitempty"`
+	Delivery  simio.Delivery `json:"delivery"`
 	// WriteFault > 0: additionally write the records to a medium that fails
 	// after WriteFault-1 bytes (0 = no write-fault pass).
 	WriteFault int `json:"write_fault,omitempty"`
@@ -282,6 +285,9 @@ func genC01(r *simrt.RNG) *Case {
 		}
 		pl.Qual = r.Intn(4) == 0
 		pl.Recs = genSeqRecs(r, pl.Alpha, false, enc)
+		if r.Intn(8) == 0 {
+			pl.SeqPrefix = []string{"##", ";", "##"}[r.Intn(3)]
+		}
 	} else {
 		pl.Format = "fastq"
 		pl.QID = r.Bool()
@@ -335,7 +341,11 @@ func writeSeqs(pl *C01Plan) ([]byte, int, *simrt.Violation) {
 func writeSeqsTo(pl *C01Plan, sink *simio.Sink) ([]byte, int, *simrt.Violation) {
 	var w seqio.Writer
 	if pl.Format == "fasta" {
-		w = fasta.NewWriter(sink, pl.Width)
+		fw := fasta.NewWriter(sink, pl.Width)
+		if pl.SeqPrefix != "" {
+			fw.SeqPrefix = []byte(pl.SeqPrefix)
+		}
+		w = fw
 	} else {
 		fw := fastq.NewWriter(sink)
 		fw.QID = pl.QID
@@ -372,11 +382,17 @@ type gotSeq struct {
 func readSeqs(pl *C01Plan, src *simio.Source, limit int) (recs []gotSeq, v *simrt.Violation) {
 	var rd seqio.Reader
 	if pl.Format == "fasta" {
-		rd = fasta.NewReader(src, seqTemplate(pl))
+		fr := fasta.NewReader(src, seqTemplate(pl))
+		if pl.SeqPrefix != "" {
+			fr.SeqPrefix = []byte(pl.SeqPrefix)
+		}
+		rd = fr
 	} else {
 		rd = fastq.NewReader(src, seqTemplate(pl))
 	}
 	site := "c01-" + pl.Format
+	var held []seq.Sequence
+	defer func() { recs = extractSeqs(held) }()
 	for calls := 0; ; calls++ {
 		if calls > limit {
 			return recs, viol(site+"-no-eof", "reader did not reach io.EOF within %d calls", limit)
@@ -399,6 +415,21 @@ func readSeqs(pl *C01Plan, src *simio.Source, limit int) (recs []gotSeq, v *simr
 		if isNilValue(s) {
 			return recs, viol(site+"-nil", "record %d: Read returned (nil, nil)", len(recs))
 		}
+		switch s.(type) {
+		case *linear.Seq, *linear.QSeq:
+		default:
+			return recs, viol(site+"-type", "unexpected sequence type %T", s)
+		}
+		// The record is kept as returned and looked at only when all reads
+		// are done, as a caller collecting the records of a file would: a
+		// later Read must not disturb an earlier record.
+		held = append(held, s)
+	}
+}
+
+func extractSeqs(held []seq.Sequence) []gotSeq {
+	var recs []gotSeq
+	for _, s := range held {
 		g := gotSeq{name: s.Name(), desc: s.Description()}
 		switch x := s.(type) {
 		case *linear.Seq:
@@ -412,11 +443,10 @@ func readSeqs(pl *C01Plan, src *simio.Source, limit int) (recs []gotSeq, v *simr
 				g.quals[i] = int(ql.Q)
 			}
 			g.letters = string(b)
-		default:
-			return recs, viol(site+"-type", "unexpected sequence type %T", s)
 		}
 		recs = append(recs, g)
 	}
+	return recs
 }
 
 func clip(s string) string {
